@@ -1,5 +1,5 @@
 CONSTANTS
-  MaxSet = 6
+  MaxSet = 4
   MaxDup = 1
   ParseBeforeShadowTest = FALSE
 INIT Init
